@@ -122,6 +122,16 @@ CHECKS["C13"] = dict(
     note="Trusts the reference verdict function and the reconstruction of directory-mode emission order (sequential single-process writer).",
     design="DESIGN.md section 4 C13")
 
+CHECKS["C14"] = dict(
+    category="model_checking",
+    technique="harness-owned deterministic thread scheduler over the real transport code (sys.settrace line events + cooperative-lock shim); stateless DFS enumeration of all schedules of tiny scenarios up to a preemption bound; Hypothesis-generated choice lists for larger scenarios; multiset / per-channel order / pattern oracle",
+    text=("Systematic schedule exploration of the implementation itself (no abstract model): every interleaving of 5 tiny scenarios at "
+          "line granularity of in_memory.py is enumerated exhaustively up to 2 preemptions (quick; 3 thorough; one less for the 3-thread "
+          "and 4-message scenarios), ~2.3k schedules quick, plus 6.6k (quick) / 135k (thorough) generated schedules of larger scenarios "
+          "with 2-3 publishers, 1-2 exact/wildcard subscribers and existing / new channels. Every schedule is replayable from its choice list."),
+    note="Granularity limit: one module, line events, one runnable thread at a time; races inside a single line or inside C code of deque/dict are out of reach. The module's threading name is shimmed.",
+    design="DESIGN.md section 4 C14")
+
 NOT_YET = {}
 
 
